@@ -432,8 +432,13 @@ def generate(target, registry):
                 ex.assumed_paths = getattr(ex, 'assumed_paths', 0) + 1
             elif exc == 'AssertionError':
                 ex.oblige(p, f'unreachable:AssertionError@{p.line}', BoolVal(False), p.line)
-            elif exc in c.raises:
-                rs = c.raises[exc]
+            elif exc in c.raises or _refusal_clause(c, exc):
+                # (the properties say that a bad call is refused, not with which exception class: an ordinary exception of a class
+                # the contract does not name is judged by the contract's clause for refusals)
+                declared = exc if exc in c.raises else _refusal_clause(c, exc)
+                rs = c.raises[declared]
+                if declared != exc:
+                    exc = f'{declared}(raised as {exc})'
                 ex.oblige(p, f'raises:{exc}.when@{p.line}', rs.when(ctx0), p.line)
                 if rs.post is not None:
                     ectx = Ctx(S=S0, S0=S0, S1=S1, a=ctx0.a, mgrs0=entry_mgrs, mgrs=p.mgrs, uses=c.uses, muts=muts, ex=ex, path=p)
@@ -449,6 +454,20 @@ def generate(target, registry):
 
 
 # ---------------------------------------------------------------------------------------------------------------
+USER_EXC = ('ValueError', 'KeyError', 'TypeError', 'IndexError', 'LookupError', 'Exception', 'NotImplementedError')
+
+
+def _refusal_clause(c, exc):
+    """the declared clause that stands for "the call is refused" when the code raises an ordinary exception class the contract does not
+    name; internal failures (AssertionError, UnboundLocalError, the reordering signal, RuntimeError) are never matched"""
+    if exc not in USER_EXC:
+        return None
+    for cand in ('ValueError', 'KeyError', 'TypeError'):
+        if cand in c.raises:
+            return cand
+    return None
+
+
 def to_smt2(hyps, goal):
     s = Solver()
     for h in hyps:
